@@ -42,7 +42,7 @@ def doc(s, n):
     m["web"] = web
     sym = D("symbol"); sym["name"] = "sq"; sym["type"] = "vector"; sym["points"] = [(1, 1), (n, 2)]
     m["symbols"] = [sym]
-    st = D("style"); st["symbol"] = 7; st["width"] = n; st["pattern"] = [(2, 4)]; st["color"] = [1, 2, 3]
+    st = D("style"); st["symbol"] = 7; st["width"] = n; st["pattern"] = [(2, 4)]; st["color"] = [1, 2, 3]; st["colorrange"] = ["#000000", "#ffffff"]
     lb = D("label"); lb["size"] = n
     cl = D("class"); cl["name"] = s; cl["styles"] = [st]; cl["labels"] = [lb]
     ft = D("feature"); ft["points"] = [[(1, 1), (2, 2)], [(3, 3), (4, 4)]]
@@ -87,6 +87,7 @@ def spec(s, n, Q):
         (4, "kv", "WIDTH", repr(n), "style"),
         (4, "open", "PATTERN", None, None), (5, "raw", "2 4", None, None), (4, "end", "PATTERN", None, None),
         (4, "kv", "COLOR", "1 2 3", "style"),
+        (4, "kv", "COLORRANGE", q("#000000") + " " + q("#ffffff"), "style"),
         (3, "end", "STYLE", None, None),
         (3, "open", "LABEL", None, None), (4, "kv", "SIZE", repr(n), "label"), (3, "end", "LABEL", None, None),
         (3, "kv", "TEMPLATE", q("t.html"), "class"),
@@ -101,7 +102,7 @@ def spec(s, n, Q):
     ]
 
 # longest simple keyword per object (key-value blocks: the quoted key)
-LONGEST = {"map": 9, "web": 9, "md": 11, "symbol": 4, "layer": 10, "class": 8, "style": 6, "label": 4, "co": 9, "layer2": 6}
+LONGEST = {"map": 9, "web": 9, "md": 11, "symbol": 4, "layer": 10, "class": 8, "style": 10, "label": 4, "co": 9, "layer2": 6}
 
 
 def layout(s, n, indent, spacer, Q, end_comment, align):
@@ -143,11 +144,11 @@ nl = "\\n" if nli == 0 else ("\\r\\n" if nli == 1 else " ")
 pp = PrettyPrinter(indent=2, newlinechar=nl, end_comment=ec)
 pp.validator = _VALIDATOR
 def small():
-    m = D("map"); m["name"] = s
+    m = D("map"); m["name"] = s + "\\nsecond line of a multi-line string"      # a line break *inside* a value is content, not layout
     w = D("web"); w["imagepath"] = s
     m["web"] = w
     return m
-exp = ["MAP", '  NAME "' + s + '"', "  WEB", '    IMAGEPATH "' + s + '"', "  END" + (" # WEB" if ec else ""), "END" + (" # MAP" if ec else "")]
+exp = ["MAP", '  NAME "' + s + '\\nsecond line of a multi-line string"', "  WEB", '    IMAGEPATH "' + s + '"', "  END" + (" # WEB" if ec else ""), "END" + (" # MAP" if ec else "")]
 text = pp.pprint(small())
 text2 = pp.pprint([small(), small()])
 return text == nl.join(exp) and text2 == nl.join(exp + exp) and pp.pprint(small()) == text
